@@ -251,6 +251,22 @@ def run(ck):
             continue
         ms = segs_of(ans[3:])
         if len(ms) != len(segs) or any(not close_v(a[0], b[0], L) or not close_v(a[1], b[1], L) for a, b in zip(ms, segs)):
+            # the taper loops switch state on `|inc1| - |inc| - eps < 0`; where that difference is zero in exact
+            # arithmetic the float comparison may go either way: accept the model if the implementation itself
+            # jumps to the model's answer under a 1e-13 .. 1e-11 relative change of the wire length
+            amb = False
+            for dl in (1e-13, -1e-13, 1e-12, -1e-12, 1e-11, -1e-11):
+                q2 = [a + (b - a) * (1 + dl) for a, b in zip(p1, p2)]
+                try:
+                    w2, s2 = impl_wire(p1, q2, n, r, segtype, tmin, tmax)
+                except Exception:
+                    continue
+                if len(s2) == len(ms) and all(close_v(a[0], b[0], L, 1e-9) and close_v(a[1], b[1], L, 1e-9) for a, b in zip(ms, s2)):
+                    amb = True
+                    break
+            if amb:
+                ck.count('taper_threshold_ambiguous')
+                continue
             dis.append(dict(why='segment table', case=dict(p1=p1, p2=p2, n=n, r=r, segtype=segtype, tmin=tmin, tmax=tmax)))
             continue
         bad = invariants(segs, p1, p2, n, r, segtype, tmin, tmax, tapered)
